@@ -238,7 +238,12 @@ func TestGrammarRandom(t *testing.T) {
 			nl := gen.IntR(t, 1, 6, "nlabels")
 			var labs []string
 			for i := 0; i < nl; i++ {
-				l := strings.Repeat("a", gen.Pick(t, []int{1, 30, 50, 62, 63, 64}, "ll"))
+				lb := []byte(strings.Repeat("a", gen.Pick(t, []int{1, 30, 50, 62, 63, 64, 65, 70}, "ll")))
+				// every byte of a label counts towards the limits, whatever its class: letters, digits, hyphens
+				for k := gen.Pick(t, []int{0, 0, 1, 2, 8}, "nonletters"); k > 0 && len(lb) > 2; k-- {
+					lb[gen.IntR(t, 1, len(lb)-2, "at")] = gen.Pick(t, []byte("--0-9A_"), "byte")
+				}
+				l := string(lb)
 				if gen.IntR(t, 0, 3, "lp") == 0 {
 					l += "{" + strings.Repeat("n", gen.IntR(t, 1, 4, "nl")) + "}"
 				}
